@@ -793,6 +793,17 @@ func (p *Prog) stopFn(targets nameSet, depth int, seen map[*ssa.Function]bool) f
 // slices, conversions, binary ops, and calls' arguments when throughCalls)
 // from some value satisfying src.
 func derives(v ssa.Value, src func(ssa.Value) bool, throughCalls bool, depth int) bool {
+	return derivesOpt(v, src, throughCalls, depth, false)
+}
+
+// derivesWide is derives through calls and additionally through containers:
+// range iteration (Next/Range) and the keys and values stored into a map made
+// in the function.
+func derivesWide(v ssa.Value, src func(ssa.Value) bool, depth int) bool {
+	return derivesOpt(v, src, true, depth, true)
+}
+
+func derivesOpt(v ssa.Value, src func(ssa.Value) bool, throughCalls bool, depth int, containers bool) bool {
 	seen := map[ssa.Value]bool{}
 	var rec func(v ssa.Value, d int) bool
 	rec = func(v ssa.Value, d int) bool {
@@ -872,6 +883,24 @@ func derives(v ssa.Value, src func(ssa.Value) bool, throughCalls bool, depth int
 			return rec(x.X, d+1)
 		case *ssa.Extract:
 			return rec(x.Tuple, d+1)
+		case *ssa.Next:
+			if containers {
+				return rec(x.Iter, d+1)
+			}
+		case *ssa.Range:
+			if containers {
+				return rec(x.X, d+1)
+			}
+		case *ssa.MakeMap:
+			if containers {
+				for _, r := range *x.Referrers() {
+					if mu, ok := r.(*ssa.MapUpdate); ok && mu.Map == ssa.Value(x) {
+						if rec(mu.Key, d+1) || rec(mu.Value, d+1) {
+							return true
+						}
+					}
+				}
+			}
 		case *ssa.Call:
 			if throughCalls {
 				for _, a := range x.Call.Args {
